@@ -201,6 +201,10 @@ C06_ExitZero ==
 C07_EmittedParses ==
   /\ \A i \in 1..N : disk[i] # "badpatched"
   /\ \A k \in 1..Len(stdout) : stdout[k].what \notin {"badpatched", "baddiff"}
+\* whatever is on stdout is, piece by piece, something the run is supposed to emit: a file's
+\* original or patched bytes, a complete diff, a log line (the observation marks anything
+\* else - e.g. a file's content cut short - as "other")
+C07_OutputWellFormed == \A k \in 1..Len(stdout) : stdout[k].what # "other"
 C07_BadResultReported ==
   stage = "done" /\ fault.p # "missing" =>
      \A i \in 1..N : kinds[i] = "badresult" => exit # 0 /\ StderrOf(i) # <<>>
